@@ -331,7 +331,7 @@ def check(ctx):
 
     def bounds_call(kind):
         name = {"y": "results_normalized_margin", "z": "turnout_factor"}[kind]
-        return ("call", ("attr", SELF, "_generate_nonreporting_bounds"), (NUP, ("const", name)), ())
+        return ir.repo_call(("attr", SELF, "_generate_nonreporting_bounds"), [("nonreporting_units", NUP), ("bootstrap_estimand", ("const", name))])
 
     def bounded(t):
         t0 = t
